@@ -1,3 +1,407 @@
-//! C15 bounded native checks (not written yet)
-use super::Report;
-pub fn run() -> Option<Report> { None }
+//! C15 bounded: spatial search, sampling and hulls against exhaustive computation.
+//!
+//! Input space (enumerated; the only randomness is the RNG INSIDE Mesh::sample_uniform / sample_poisson, and every
+//! clause evaluated on their output holds for every draw):
+//! * k-d trees: a 7x7 integer grid in 2D (+4 exact duplicates) and a 4x4x3 integer grid in 3D (+3 duplicates) -- more
+//!   points than one kiddo leaf bucket (32) --, and a 3x3 grid (+1 duplicate); query points: every data point, cell
+//!   centres (4-/8-way ties), off-grid points with a unique nearest neighbour, points outside the cloud; k in {1,2,5};
+//!   radii 0.3, 0.75, 1.2, 1.5, 2.1, 2.5 (never a distance that occurs exactly: kiddo's behaviour ON the boundary is
+//!   not pinned) and 0 (soundness only). PartialKdTree over: every 2nd index, every 3rd index in descending order, a
+//!   permuted full-length list, the reversed full list, one index.
+//! * sample_poisson_disk: the same clouds, working lists: all in order, reversed, permuted, every 2nd, a list that
+//!   names an index twice; radii 0.5, 1.2, 1.5, 2.1.
+//! * hulls: 3x3 grid, scattered integer points (with interior, collinear and duplicated points), convex and non-convex
+//!   simple polygons in both orientations.
+//! * mesh sampling: unit box, 1x2x3 box, three separate triangles, and the same three with an exactly zero-area sliver
+//!   face in the middle / at the end of the face list.
+//! * ball pivoting: 12 points on a circle of radius 5 (ball radius 2), plus one extra point reached after a pivot of
+//!   0.05, 1e-2 and 3e-4 rad; start on an index with a direction / on the convex hull.
+use super::{close, Report};
+use crate::common::kd_tree::{KdTree, KdTreeSearch, PartialKdTree};
+use crate::common::poisson_disk::sample_poisson_disk;
+use crate::common::AngleDir;
+use crate::geom2::hull::{ball_pivot_with_centers_2d, convex_hull_2d, farthest_pair_indices, point_order_direction, BallPivotEnd, BallPivotStart};
+use crate::geom2::{Iso2, Point2, Vector2};
+use crate::{Mesh, Point3, SurfacePoint3, Vector3};
+use parry2d_f64::shape::ConvexPolygon;
+use parry3d_f64::na::Point;
+use std::collections::BTreeSet;
+use std::num::NonZero;
+use std::panic::{catch_unwind, AssertUnwindSafe};
+
+const KIDDO: &str = "[kiddo ImmutableKdTree leaf > 32 items] ";
+
+fn d<const D: usize>(a: &Point<f64, D>, b: &Point<f64, D>) -> f64 { (a - b).norm() }
+fn show<const D: usize>(p: &Point<f64, D>) -> String { format!("{:?}", p.coords.as_slice()) }
+
+// ------------------------------------------------------------------------------------------------ k-d trees
+/// `cand`: the original indices the tree was built over; `all`: the full point list
+fn check_search<const D: usize, T: KdTreeSearch<D>>(r: &mut Report, tag: &str, name: &str, tree: &T, all: &[Point<f64, D>], cand: &[usize], queries: &[Point<f64, D>]) {
+    let cset: BTreeSet<usize> = cand.iter().copied().collect();
+    r.check(tree.len() == cand.len(), &format!("{}len() is the number of indexed points", tag), || format!("{}: len {} vs {}", name, tree.len(), cand.len()));
+    for q in queries.iter() {
+        r.case();
+        let mut bf: Vec<f64> = cand.iter().map(|&i| d(&all[i], q)).collect();
+        bf.sort_by(|a, b| a.partial_cmp(b).unwrap());
+        // nearest_one
+        let (i1, d1) = tree.nearest_one(q);
+        let dq = || format!("{}: nearest_one({}) = ({}, {})", name, show(q), i1, d1);
+        r.check(cset.contains(&i1), &format!("{}nearest_one: the index is an original index of an indexed point", tag), dq);
+        r.check(close(d1, bf[0]), &format!("{}nearest_one: the distance is the brute-force minimum", tag), dq);
+        if i1 < all.len() { r.check(close(d(&all[i1], q), d1), &format!("{}nearest_one: the reported distance is the distance to the reported point", tag), dq); }
+        // nearest(k)
+        for k in [1usize, 2, 5] {
+            let res = tree.nearest(q, NonZero::new(k).unwrap());
+            let dk = || format!("{}: nearest({}, {}) = {:?}", name, show(q), k, res);
+            let want = k.min(cand.len());
+            r.check(res.len() == want, &format!("{}nearest(k): min(k, n) results", tag), dk);
+            r.check(res.windows(2).all(|w| w[0].1 <= w[1].1), &format!("{}nearest(k): results are ordered nearest first", tag), dk);
+            r.check(res.iter().map(|x| x.0).collect::<BTreeSet<_>>().len() == res.len(), &format!("{}nearest(k): no index twice", tag), dk);
+            r.check(res.iter().all(|x| cset.contains(&x.0)), &format!("{}nearest(k): indices are original indices of indexed points", tag), dk);
+            r.check(res.iter().all(|x| x.0 < all.len() && close(d(&all[x.0], q), x.1)), &format!("{}nearest(k): each distance is the distance to the reported point", tag), dk);
+            r.check(res.len() == want && res.iter().zip(bf.iter()).all(|(x, b)| close(x.1, *b)), &format!("{}nearest(k): the distances are the k smallest brute-force distances", tag), dk);
+        }
+        // within(r)
+        for rad in [0.0, 0.3, 0.75, 1.2, 1.5, 2.1, 2.5] {
+            let res = tree.within(q, rad);
+            let dw = || format!("{}: within({}, {}) = {:?}", name, show(q), rad, res);
+            let got: BTreeSet<usize> = res.iter().map(|x| x.0).collect();
+            r.check(got.len() == res.len(), &format!("{}within: no index twice", tag), dw);
+            r.check(res.iter().all(|x| x.0 < all.len() && cset.contains(&x.0) && close(d(&all[x.0], q), x.1)), &format!("{}within: each result is an indexed point with its distance", tag), dw);
+            r.check(res.iter().all(|x| x.1 <= rad + 1e-12), &format!("{}within: every result is within the radius", tag), dw);
+            let on_boundary = cand.iter().any(|&i| (d(&all[i], q) - rad).abs() < 1e-9);
+            if !on_boundary {
+                let want: BTreeSet<usize> = cand.iter().copied().filter(|&i| d(&all[i], q) <= rad).collect();
+                r.check(got == want, &format!("{}within: exactly the points within the radius (brute force)", tag), || format!("{} expected {:?}", dw(), want));
+            }
+        }
+    }
+}
+
+fn index_lists(n: usize) -> Vec<(&'static str, Vec<usize>)> {
+    // 7 is coprime to every n used here (53, 51, 10)
+    let perm: Vec<usize> = (0..n).map(|i| (i * 7 + 3) % n).collect();
+    vec![
+        ("every 2nd index", (0..n).step_by(2).collect()),
+        ("every 3rd index, descending", (0..n).step_by(3).rev().collect()),
+        ("permuted full-length list", perm),
+        ("reversed full list", (0..n).rev().collect()),
+        ("one index", vec![n / 2]),
+    ]
+}
+
+fn cloud2(w: usize, h: usize, dups: &[usize]) -> Vec<Point2> {
+    let mut v = Vec::new();
+    for i in 0..w { for j in 0..h { v.push(Point2::new(i as f64, j as f64)); } }
+    for &k in dups { let p = v[k]; v.push(p); }
+    v
+}
+fn cloud3(w: usize, h: usize, l: usize, dups: &[usize]) -> Vec<Point3> {
+    let mut v = Vec::new();
+    for i in 0..w { for j in 0..h { for k in 0..l { v.push(Point3::new(i as f64, j as f64, k as f64)); } } }
+    for &k in dups { let p = v[k]; v.push(p); }
+    v
+}
+fn queries2(pts: &[Point2], w: usize, h: usize) -> Vec<Point2> {
+    let mut q = pts.to_vec();
+    for i in 0..w - 1 { for j in 0..h - 1 { q.push(Point2::new(i as f64 + 0.5, j as f64 + 0.5)); } }
+    for i in 0..w { q.push(Point2::new(i as f64 + 0.25, (i % h) as f64 + 0.125)); }
+    q.extend([Point2::new(-1.5, -0.75), Point2::new(w as f64 + 1.25, 1.0625), Point2::new(2.0625, h as f64 + 2.0), Point2::new(-3.0, h as f64 + 3.5)]);
+    q
+}
+fn queries3(pts: &[Point3], w: usize, h: usize, l: usize) -> Vec<Point3> {
+    let mut q = pts.to_vec();
+    for i in 0..w - 1 { for j in 0..h - 1 { for k in 0..l - 1 { q.push(Point3::new(i as f64 + 0.5, j as f64 + 0.5, k as f64 + 0.5)); } } }
+    for i in 0..w { q.push(Point3::new(i as f64 + 0.25, (i % h) as f64 + 0.125, (i % l) as f64 - 0.0625)); }
+    q.extend([Point3::new(-1.5, -0.75, 0.25), Point3::new(w as f64 + 1.25, 1.0625, 5.0)]);
+    q
+}
+
+fn search_checks<const D: usize>(r: &mut Report, tag: &str, cname: &str, pts: &[Point<f64, D>], queries: &[Point<f64, D>]) {
+    let n = pts.len();
+    let all: Vec<usize> = (0..n).collect();
+    let tree = KdTree::new(pts);
+    check_search(r, tag, &format!("KdTree over {}", cname), &tree, pts, &all, queries);
+    for (lname, list) in index_lists(n) {
+        let pt = PartialKdTree::new(pts, &list);
+        check_search(r, tag, &format!("PartialKdTree over {} / {} {:?}", cname, lname, if list.len() <= 12 { list.clone() } else { list[..12].to_vec() }), &pt, pts, &list, queries);
+    }
+}
+
+// ------------------------------------------------------------------------------------------------ Poisson disk
+fn poisson_checks<const D: usize>(r: &mut Report, tag: &str, cname: &str, pts: &[Point<f64, D>]) {
+    let n = pts.len();
+    let mut lists: Vec<(&str, Vec<usize>)> = vec![
+        ("all in order", (0..n).collect()),
+        ("reversed", (0..n).rev().collect()),
+        ("permuted", (0..n).map(|i| (i * 7 + 3) % n).collect()),
+        ("every 2nd", (0..n).step_by(2).collect()),
+        ("an index named twice", vec![3, 3, n - 1, 0, n - 1]),
+    ];
+    lists.push(("the duplicated points last to first", (n.saturating_sub(6)..n).rev().chain(0..n.saturating_sub(6)).collect()));
+    for (lname, work) in lists.iter() {
+        for rad in [0.5, 1.2, 1.5, 2.1] {
+            r.case();
+            let keep = sample_poisson_disk(pts, work, rad);
+            let dsc = || format!("sample_poisson_disk({}, working = {} {:?}, radius {}) = {:?}", cname, lname, if work.len() <= 12 { work.clone() } else { work[..12].to_vec() }, rad, keep);
+            let wset: BTreeSet<usize> = work.iter().copied().collect();
+            r.check(keep.iter().all(|i| wset.contains(i)), &format!("{}Poisson disk: the result is a subset of the working indices", tag), dsc);
+            r.check(keep.iter().collect::<BTreeSet<_>>().len() == keep.len(), &format!("{}Poisson disk: no index is kept twice", tag), dsc);
+            let mut sep = true;
+            for a in 0..keep.len() { for b in a + 1..keep.len() {
+                if keep[a] < n && keep[b] < n && d(&pts[keep[a]], &pts[keep[b]]) <= rad { sep = false; }
+            } }
+            r.check(sep, &format!("{}Poisson disk: no two kept points are within the radius of each other", tag), dsc);
+            let cov = work.iter().all(|&w| keep.iter().any(|&k| k < n && d(&pts[w], &pts[k]) <= rad));
+            r.check(cov, &format!("{}Poisson disk: every working point is within the radius of a kept point", tag), dsc);
+        }
+    }
+}
+
+// ------------------------------------------------------------------------------------------------ hulls
+fn cross2(a: &Point2, b: &Point2, c: &Point2) -> f64 { (b.x - a.x) * (c.y - a.y) - (b.y - a.y) * (c.x - a.x) }
+fn signed_area(p: &[Point2]) -> f64 { (0..p.len()).map(|i| { let j = (i + 1) % p.len(); p[i].x * p[j].y - p[j].x * p[i].y }).sum::<f64>() * 0.5 }
+
+fn hull_checks(r: &mut Report, name: &str, pts: &[Point2]) {
+    r.case();
+    let hull = convex_hull_2d(pts);
+    let dsc = || format!("convex_hull_2d({}: {:?}) = {:?}", name, pts.iter().map(|p| (p.x, p.y)).collect::<Vec<_>>(), hull);
+    r.check(hull.iter().all(|&i| i < pts.len()) && hull.iter().collect::<BTreeSet<_>>().len() == hull.len(), "convex hull: distinct indices of input points", dsc);
+    if hull.len() < 3 || hull.iter().any(|&i| i >= pts.len()) { r.check(false, "convex hull: at least 3 hull points for a point set that is not collinear", dsc); return; }
+    let hp: Vec<Point2> = hull.iter().map(|&i| pts[i]).collect();
+    r.check(signed_area(&hp) > 0.0, "convex hull: the indices run counter-clockwise (positive signed area)", dsc);
+    let h = hp.len();
+    r.check((0..h).all(|i| cross2(&hp[i], &hp[(i + 1) % h], &hp[(i + 2) % h]) >= -1e-9), "convex hull: every turn is a left turn", dsc);
+    r.check(pts.iter().all(|p| (0..h).all(|i| cross2(&hp[i], &hp[(i + 1) % h], p) >= -1e-9)), "convex hull: every input point is inside or on the hull", dsc);
+    // farthest pair on the parry polygon of the same points
+    if let Some(poly) = ConvexPolygon::from_convex_hull(pts) {
+        let (a, b) = farthest_pair_indices(&poly);
+        let pp = poly.points();
+        let dfp = || format!("farthest_pair_indices(hull of {}: {:?}) = ({}, {})", name, pp.iter().map(|p| (p.x, p.y)).collect::<Vec<_>>(), a, b);
+        r.check(a < pp.len() && b < pp.len(), "farthest pair: indices of hull points", dfp);
+        if a < pp.len() && b < pp.len() {
+            let mut diam: f64 = 0.0;
+            for i in 0..pp.len() { for j in 0..pp.len() { diam = diam.max(d(&pp[i], &pp[j])); } }
+            r.check(close(d(&pp[a], &pp[b]), diam), "farthest pair: the distance is the brute-force diameter of the hull", dfp);
+            let mut diam_all: f64 = 0.0;
+            for i in 0..pts.len() { for j in 0..pts.len() { diam_all = diam_all.max(d(&pts[i], &pts[j])); } }
+            r.check(close(d(&pp[a], &pp[b]), diam_all), "farthest pair: the distance is the diameter of all input points", dfp);
+        }
+    }
+}
+
+fn direction_checks(r: &mut Report, name: &str, poly: &[Point2]) {
+    for rev in [false, true] {
+        r.case();
+        let p: Vec<Point2> = if rev { poly.iter().rev().copied().collect() } else { poly.to_vec() };
+        let area = signed_area(&p);
+        let got = point_order_direction(&p);
+        let ccw = matches!(got, AngleDir::Ccw);
+        r.check(ccw == (area > 0.0), "point_order_direction matches the sign of the signed area (simple polygon)", || format!("{}{}: {:?}, signed area {}, got {:?}", name, if rev { " reversed" } else { "" }, p.iter().map(|q| (q.x, q.y)).collect::<Vec<_>>(), area, got));
+    }
+}
+
+// ------------------------------------------------------------------------------------------------ mesh sampling
+fn tri_of(m: &Mesh, f: usize) -> (Point3, Point3, Point3) {
+    let t = m.faces()[f];
+    (m.vertices()[t[0] as usize], m.vertices()[t[1] as usize], m.vertices()[t[2] as usize])
+}
+fn tri_normal(a: &Point3, b: &Point3, c: &Point3) -> Option<Vector3> {
+    let n = (b - a).cross(&(c - a));
+    if n.norm() < 1e-12 { None } else { Some(n / n.norm()) }
+}
+fn tri_area(a: &Point3, b: &Point3, c: &Point3) -> f64 { (b - a).cross(&(c - a)).norm() * 0.5 }
+fn tri_contains(a: &Point3, b: &Point3, c: &Point3, p: &Point3) -> bool {
+    let n = match tri_normal(a, b, c) { Some(n) => n, None => return false };
+    if (p - a).dot(&n).abs() > 1e-9 { return false; }
+    let area = |u: &Point3, v: &Point3, w: &Point3| (v - u).cross(&(w - u)).dot(&n);
+    let total = area(a, b, c);
+    area(p, b, c) / total >= -1e-9 && area(a, p, c) / total >= -1e-9 && area(a, b, p) / total >= -1e-9
+}
+/// faces (with a normal) that contain the point
+fn faces_at(m: &Mesh, p: &Point3) -> Vec<usize> {
+    (0..m.faces().len()).filter(|&f| { let (a, b, c) = tri_of(m, f); tri_contains(&a, &b, &c, p) }).collect()
+}
+fn check_samples<F: Fn() -> String + Copy>(r: &mut Report, m: &Mesh, s: &[SurfacePoint3], what: &str, dsc: F) -> Vec<usize> {
+    let mut hits = vec![0usize; m.faces().len()];
+    let mut on = true;
+    let mut nrm = true;
+    let mut bad = String::new();
+    for sp in s.iter() {
+        let fs = faces_at(m, &sp.point);
+        if fs.is_empty() { on = false; bad = format!("{:?}", sp.point.coords.as_slice()); continue; }
+        let ok = fs.iter().any(|&f| { let (a, b, c) = tri_of(m, f); (tri_normal(&a, &b, &c).unwrap() - sp.normal.into_inner()).norm() < 1e-9 });
+        if !ok { nrm = false; bad = format!("{:?} normal {:?} (faces {:?})", sp.point.coords.as_slice(), sp.normal.as_slice(), fs); }
+        hits[fs[0]] += 1;
+    }
+    r.check(on, &format!("{}: every sample lies on a face of the mesh", what), || format!("{} offending sample {}", dsc(), bad));
+    r.check(nrm, &format!("{}: every sample carries the normal of the face it lies on", what), || format!("{} offending sample {}", dsc(), bad));
+    hits
+}
+
+fn sampling_meshes() -> Vec<(&'static str, Mesh, bool)> {
+    let v = vec![
+        Point3::new(0.0, 0.0, 0.0), Point3::new(1.0, 0.0, 0.0), Point3::new(0.0, 1.0, 0.0), // z = 0, area 0.5
+        Point3::new(0.5, 0.0, 0.0),                                                          // midpoint of the first edge
+        Point3::new(5.0, 0.0, 0.0), Point3::new(5.0, 2.0, 0.0), Point3::new(5.0, 0.0, 2.0), // x = 5, area 2
+        Point3::new(0.0, -3.0, 0.0), Point3::new(0.0, -3.0, 2.0), Point3::new(1.0, -3.0, 0.0), // y = -3, area 1
+    ];
+    vec![
+        ("unit box", Mesh::create_box(1.0, 1.0, 1.0, false), false),
+        ("1x2x3 box", Mesh::create_box(1.0, 2.0, 3.0, false), false),
+        ("three triangles (areas 0.5, 2, 1)", Mesh::new(v.clone(), vec![[0, 1, 2], [4, 5, 6], [7, 8, 9]], false), false),
+        ("three triangles with a zero-area face in the middle of the face list", Mesh::new(v.clone(), vec![[0, 1, 2], [0, 3, 1], [4, 5, 6], [7, 8, 9]], false), true),
+        ("three triangles with a zero-area face at the end of the face list", Mesh::new(v, vec![[0, 1, 2], [4, 5, 6], [7, 8, 9], [0, 3, 1]], false), true),
+    ]
+}
+
+fn sampling_checks(r: &mut Report) {
+    for (name, m, has_sliver) in sampling_meshes().iter() {
+        let nf = m.faces().len();
+        // uniform
+        let n = 3000usize;
+        r.case();
+        let du = || format!("{}: sample_uniform({})", name, n);
+        match catch_unwind(AssertUnwindSafe(|| m.sample_uniform(n))) {
+            Err(_) => r.check(false, "sample_uniform does not panic", du),
+            Ok(s) => {
+                r.check(s.len() == n, "sample_uniform returns n samples", du);
+                let hits = check_samples(r, m, &s, "sample_uniform", du);
+                // proportion to area: 8 standard deviations (a fair sampler fails this with probability < 1e-14 per face);
+                // only where every sample sits on exactly one face (the separate-triangle meshes)
+                if name.starts_with("three") {
+                    let areas: Vec<f64> = (0..nf).map(|f| { let (a, b, c) = tri_of(m, f); tri_area(&a, &b, &c) }).collect();
+                    let total: f64 = areas.iter().sum();
+                    for f in 0..nf {
+                        let p = areas[f] / total;
+                        let dev = (hits[f] as f64 - p * n as f64).abs();
+                        r.check(dev <= 8.0 * (n as f64 * p * (1.0 - p)).sqrt() + 1.0, "sample_uniform hits faces in proportion to their area (8 sigma)", || format!("{} face {} (area share {}) hit {} times", du(), f, p, hits[f]));
+                    }
+                }
+            }
+        }
+        // dense / Poisson
+        for spacing in [0.3, 0.45, 4.0] {
+            r.case();
+            let dd = || format!("{}: sample_dense({})", name, spacing);
+            match catch_unwind(AssertUnwindSafe(|| m.sample_dense(spacing))) {
+                Err(_) => r.check(false, if *has_sliver { "sample_dense does not panic on a mesh with a zero-area face" } else { "sample_dense does not panic" }, dd),
+                Ok(s) => {
+                    r.check(!s.is_empty(), "sample_dense returns samples", dd);
+                    check_samples(r, m, &s, "sample_dense", dd);
+                }
+            }
+        }
+        for radius in [0.4, 0.9] {
+            r.case();
+            let dp = || format!("{}: sample_poisson({})", name, radius);
+            match catch_unwind(AssertUnwindSafe(|| (m.sample_poisson(radius), m.sample_dense(radius * 0.5)))) {
+                Err(_) => r.check(false, if *has_sliver { "sample_poisson does not panic on a mesh with a zero-area face" } else { "sample_poisson does not panic" }, dp),
+                Ok((s, dense)) => {
+                    check_samples(r, m, &s, "sample_poisson", dp);
+                    let mut sep = true;
+                    for a in 0..s.len() { for b in a + 1..s.len() { if d(&s[a].point, &s[b].point) <= radius { sep = false; } } }
+                    r.check(sep, &format!("{}sample_poisson: no two samples within the radius of each other", KIDDO), dp);
+                    r.check(dense.iter().all(|q| s.iter().any(|k| d(&q.point, &k.point) <= radius)), &format!("{}sample_poisson: every dense candidate is within the radius of a kept sample", KIDDO), dp);
+                }
+            }
+        }
+    }
+}
+
+// ------------------------------------------------------------------------------------------------ ball pivoting
+const BALL: f64 = 2.0;
+fn circle12() -> Vec<Point2> { (0..12).map(|i| { let a = (i as f64 * 30.0).to_radians(); Point2::new(5.0 * a.cos(), 5.0 * a.sin()) }).collect() }
+fn outer_center(a: &Point2, b: &Point2) -> Point2 {
+    let mid = Point2::from((a.coords + b.coords) * 0.5);
+    let half = (b - a).norm() * 0.5;
+    mid + mid.coords.normalize() * (BALL * BALL - half * half).sqrt()
+}
+/// a point that the ball resting on polygon vertices 5 and 6 touches after pivoting counter-clockwise about vertex 6 by `delta`
+fn extra_point(points: &[Point2], delta: f64) -> Point2 {
+    let b = points[6];
+    let o = outer_center(&points[5], &b);
+    let o2 = b + Iso2::rotation(delta) * (o - b);
+    let to_b = (b - o2).normalize();
+    o2 + Iso2::rotation((-40.0_f64).to_radians()) * to_b * BALL
+}
+fn pivot_checks(r: &mut Report) {
+    let mut sets: Vec<(String, Vec<Point2>)> = vec![("12 points on a circle of radius 5".to_string(), circle12())];
+    for delta in [0.05, 1.0e-2, 3.0e-4] {
+        let mut p = circle12();
+        let e = extra_point(&p, delta);
+        p.push(e);
+        sets.push((format!("12 points on a circle of radius 5 + a point touched after a pivot of {} rad about point 6", delta), p));
+    }
+    for (name, pts) in sets.iter() {
+        for (sname, start) in [("StartOnIndexDir(0, +x)", BallPivotStart::StartOnIndexDir(0, Vector2::new(1.0, 0.0))), ("StartOnConvex", BallPivotStart::StartOnConvex)] {
+            r.case();
+            let dsc = || format!("ball_pivot_with_centers_2d({}, {}, EndOnRepeat, Ccw, radius {})", name, sname, BALL);
+            match catch_unwind(AssertUnwindSafe(|| ball_pivot_with_centers_2d(pts, start, BallPivotEnd::EndOnRepeat, AngleDir::Ccw, BALL))) {
+                Err(_) => r.check(false, "ball pivot does not panic", dsc),
+                Ok(Err(_)) => r.check(false, "ball pivot completes on a closed ring of points", dsc),
+                Ok(Ok((idx, centers))) => {
+                    r.check(centers.len() + 1 == idx.len() && idx.iter().all(|&i| i < pts.len()), "ball pivot: one centre per pair of consecutive hull indices", dsc);
+                    if centers.len() + 1 != idx.len() || idx.iter().any(|&i| i >= pts.len()) { continue; }
+                    r.check(idx.len() >= pts.len(), "ball pivot: the ball visits every point of the ring", || format!("{} indices {:?}", dsc(), idx));
+                    for (k, c) in centers.iter().enumerate() {
+                        let d0 = d(&pts[idx[k]], c);
+                        let d1 = d(&pts[idx[k + 1]], c);
+                        r.check((d0 - BALL).abs() < 1e-9 && (d1 - BALL).abs() < 1e-9, "ball pivot: the centre is exactly one radius from the two consecutive hull points", || format!("{} step {} ({} -> {}): distances {} and {}", dsc(), k, idx[k], idx[k + 1], d0, d1));
+                        for (j, p) in pts.iter().enumerate() {
+                            let dj = d(p, c);
+                            r.check(dj > BALL - 1e-9, "ball pivot: no input point strictly inside the ball", || format!("{} step {} ({} -> {}): point {} is {} from the centre", dsc(), k, idx[k], idx[k + 1], j, dj));
+                        }
+                    }
+                }
+            }
+        }
+    }
+}
+
+pub fn run() -> Option<Report> {
+    let mut r = Report::new("k-d trees: 7x7 2D grid + 4 duplicates, 5x5x2 3D grid + 3 duplicates, and (tagged, known dependency defect) a 5x4x3 and a 33x3 grid, 3x3 grid + 1 duplicate; queries = data points, cell centres, off-grid and outside points; k in {1,2,5}; radii {0,0.3,0.75,1.2,1.5,2.1,2.5} (boundary hits not judged); PartialKdTree over 5 index lists (subsets, permuted and reversed full-length lists); Poisson disk over the same clouds, 6 working lists x radii {0.5,1.2,1.5,2.1}; hulls of 6 integer point sets, 4 simple polygons in both orientations; mesh sampling on 5 meshes (2 with a zero-area face), uniform n=3000, dense spacing {0.3,0.45,4}, Poisson radius {0.4,0.9}; ball pivot (radius 2) on a 12-point ring + an extra point at pivot angle {0.05,1e-2,3e-4}");
+    // k-d trees
+    let c2 = cloud2(7, 7, &[0, 10, 24, 48]);
+    search_checks(&mut r, "", "7x7 grid + duplicates of points 0, 10, 24, 48", &c2, &queries2(&c2, 7, 7));
+    let c2s = cloud2(3, 3, &[4]);
+    search_checks(&mut r, "", "3x3 grid + a duplicate of point 4", &c2s, &queries2(&c2s, 3, 3));
+    let c3 = cloud3(5, 5, 2, &[0, 17, 47]);
+    search_checks(&mut r, "", "5x5x2 grid + duplicates of points 0, 17, 47", &c3, &queries3(&c3, 5, 5, 2));
+    // Poisson disk
+    poisson_checks(&mut r, "", "7x7 grid + duplicates of points 0, 10, 24, 48", &c2);
+    poisson_checks(&mut r, "", "3x3 grid + a duplicate of point 4", &c2s);
+    poisson_checks(&mut r, "", "5x5x2 grid + duplicates of points 0, 17, 47", &c3);
+    // hulls
+    let scattered: Vec<Point2> = (0..17).map(|i| Point2::new(((i * 7) % 11) as f64, ((i * 5) % 13) as f64)).collect();
+    let mut with_dups = scattered.clone();
+    with_dups.extend([scattered[0], scattered[5], Point2::new(10.0, 12.0), Point2::new(10.0, 12.0)]);
+    hull_checks(&mut r, "3x3 grid", &cloud2(3, 3, &[]));
+    hull_checks(&mut r, "7x7 grid + duplicates", &c2);
+    hull_checks(&mut r, "17 scattered integer points", &scattered);
+    hull_checks(&mut r, "scattered integer points with duplicates", &with_dups);
+    hull_checks(&mut r, "triangle with interior points", &[Point2::new(0.0, 0.0), Point2::new(8.0, 0.0), Point2::new(0.0, 8.0), Point2::new(1.0, 1.0), Point2::new(2.0, 3.0), Point2::new(4.0, 4.0)]);
+    hull_checks(&mut r, "long thin quadrilateral", &[Point2::new(0.0, 0.0), Point2::new(16.0, 1.0), Point2::new(32.0, 0.0), Point2::new(16.0, -1.0), Point2::new(15.0, 0.0)]);
+    let hexagon = [Point2::new(2.0, 0.0), Point2::new(4.0, 1.0), Point2::new(4.0, 3.0), Point2::new(2.0, 4.0), Point2::new(0.0, 3.0), Point2::new(0.0, 1.0)];
+    let ell = [Point2::new(0.0, 0.0), Point2::new(4.0, 0.0), Point2::new(4.0, 1.0), Point2::new(1.0, 1.0), Point2::new(1.0, 4.0), Point2::new(0.0, 4.0)];
+    let star = [Point2::new(0.0, 0.0), Point2::new(3.0, 1.0), Point2::new(6.0, 0.0), Point2::new(5.0, 3.0), Point2::new(6.0, 6.0), Point2::new(3.0, 5.0), Point2::new(0.0, 6.0), Point2::new(1.0, 3.0)];
+    let tri = [Point2::new(0.0, 0.0), Point2::new(4.0, 0.0), Point2::new(0.0, 3.0)];
+    direction_checks(&mut r, "hexagon", &hexagon);
+    direction_checks(&mut r, "L-shape", &ell);
+    direction_checks(&mut r, "8-point star", &star);
+    direction_checks(&mut r, "triangle", &tri);
+    // mesh sampling
+    sampling_checks(&mut r);
+    // ball pivoting
+    pivot_checks(&mut r);
+    // LAST (so that these listed failures cannot crowd out others):
+    // point sets on which kiddo 5.0.3 builds a leaf with more than 32 items (ties on the split axis push the pivot):
+    // its nearest_n_within leaf code then reports the item ids of the first chunk for the items of the remainder.
+    // Clauses evaluated on them carry the KIDDO tag so that this dependency defect is one separately listed finding.
+    let g3 = cloud3(5, 4, 3, &[]);
+    search_checks(&mut r, KIDDO, "5x4x3 grid", &g3, &queries3(&g3, 5, 4, 3));
+    let g2 = cloud2(33, 3, &[]);
+    search_checks(&mut r, KIDDO, "33x3 grid", &g2, &g2.clone());
+    poisson_checks(&mut r, KIDDO, "5x4x3 grid", &g3);
+    Some(r)
+}
